@@ -760,16 +760,19 @@ def fixed_cases():
 
 
 def duplicate_name_case(chk):
-    """two dependencies with the same name in different packages: rejected while loading, nothing runs"""
-    files = {"COND": 'combine(name="c", deps=["//p:x", "//q:x"])\n', "p/COND": 'run_command(name="x", run="true")\n', "q/COND": 'run_command(name="x", run="true")\n'}
-    root = implrun.make_project(dict(files))
-    res = run_cond_retry(chk, ["run", "//:c"], root)
-    chk.coverage["evaluations"] += 1
-    made = os.path.isdir(os.path.join(root, "cond-out", "c.task"))
-    if res.code == 0 or made:
-        chk.violation("impl-violation", "combine over two dependencies named x was not rejected (exit %d, output directory made: %s)" % (res.code, made),
-                      {"input": {"kind": "files", "files": files, "argv": ["run", "//:c"]}, "impl_observation": {"exit": res.code, "stderr": res.err[-500:]}}, match_key={"kind": "dupname"})
-    shutil.rmtree(os.path.dirname(root), ignore_errors=True)
+    """two dependencies with the same name in different packages: rejected while loading, nothing runs -- whether
+    the two are adjacent in the list or not"""
+    for deps in (["//p:x", "//q:x"], ["//p:x", "//:other", "//q:x"], ["//:other", "//q:x", "//:more", "//p:x"]):
+        files = {"COND": 'run_command(name="other", run="true")\nrun_command(name="more", run="true")\ncombine(name="c", deps=%s)\n' % repr(deps).replace("'", '"'),
+                 "p/COND": 'run_command(name="x", run="echo p > $COND_OUT/f")\n', "q/COND": 'run_command(name="x", run="echo q > $COND_OUT/f")\n'}
+        root = implrun.make_project(dict(files))
+        res = run_cond_retry(chk, ["run", "//:c"], root)
+        chk.coverage["evaluations"] += 1
+        made = os.path.isdir(os.path.join(root, "cond-out", "c.task"))
+        if res.code == 0 or made:
+            chk.violation("impl-violation", "combine over %r (two dependencies named x) was not rejected (exit %d, output directory made: %s)" % (deps, res.code, made),
+                          {"input": {"kind": "files", "files": files, "argv": ["run", "//:c"]}, "impl_observation": {"exit": res.code, "stderr": res.err[-500:]}}, match_key={"kind": "dupname"})
+        shutil.rmtree(os.path.dirname(root), ignore_errors=True)
 
 
 def part_e2e(chk, tier, rng, only=None):
